@@ -47,7 +47,7 @@ Universe ==
   \cup {<<"select_runout_count", [NoArgs EXCEPT !.p = p, !.has = TRUE, !.amt = a]>> : p \in 0..C.n, a \in 0..Inst.maxrunout}
   \cup (IF S.street # 0 THEN {<<"show_or_muck_hole_cards", [NoArgs EXCEPT !.p = p, !.mode = "bool", !.b = b]>> : p \in 0..C.n, b \in BOOLEAN} ELSE {})
   \cup (IF AnyT(S.drawPend) THEN {<<"stand_pat_or_discard", [NoArgs EXCEPT !.cards = cs]>> : cs \in DiscardChoices(S.hole[FirstT(S.drawPend)])} ELSE {})
-  \cup {<<op, [NoArgs EXCEPT !.mode = "count", !.n = k]>> : op \in {"deal_hole", "deal_board"}, k \in 1..3}
+  \cup {<<op, [NoArgs EXCEPT !.mode = "count", !.n = k]>> : op \in {"deal_hole", "deal_board"}, k \in 1..Inst.counts}
 
 StepTo(T) ==
   /\ S' = T
